@@ -55,9 +55,29 @@ def witness_sources():
         # here the VM then stops with a run-time type error and cc refuses the C text
         'call-arg-type-unchecked:string-for-int': main('    (println (f "a"))', 'fn f(v: int) -> int {\n    return (+ v 1)\n}\nshadow f { assert (== (f 1) 2) }\n'),
         # a user function named like the builtin `exit`: diagnostic printed, then the type checker dereferences NULL (SIGSEGV in all tools)
+        # rules repaired in /repo (8ea1c10, d9c025c, b7fbdaa): kept as witnesses so that a regression is a violation
+        'duplicate-parameter-names': main('    (println (f3 1 2))', 'fn f3(v4: int, v4: int) -> int {\n    return v4\n}\nshadow f3 { assert true }\n'),
+        'main-with-parameters': 'fn main(v1: int) -> int {\n    return 0\n}\nshadow main { assert true }\n',
+        'void-variable': main('    let v5: void = (f3)', 'fn f3() -> void {\n    (println 1)\n}\nshadow f3 { assert true }\n'),
         'redefine-builtin-exit-crash': 'fn exit(v: int) -> int {\n    return (+ v 1)\n}\nshadow exit { assert (== (exit 1) 2) }\n'
                                        'fn main() -> int {\n    (println (exit 2))\n    return 0\n}\nshadow main { assert true }\n',
     }
+
+
+def handwritten_programs():
+    """well-typed programs with the control shapes the random generator reaches only by luck"""
+    import lang_findings
+    N = lang_findings.N; V = lang_findings.V; P = lang_findings.P; seq = lang_findings.seq; fn = lang_findings.fn; prog = lang_findings.prog
+    sign = fn(1, [(2, 'int')], 'int',
+              ('if', ('bin', 'lt', V(2), N(0)), ('ret', N(-1)),
+               ('if', ('bin', 'eq', V(2), N(0)), ('ret', N(0)),
+                ('if', ('bin', 'lt', V(2), N(10)), ('ret', N(1)), ('ret', N(2))))))
+    main = fn(0, [], 'int', seq(('let', True, 3, 'int', N(0)),
+                                ('for', 4, N(-1), N(12), seq(('if', ('bin', 'eq', ('call', 1, [V(4)]), N(1)), ('set', 3, ('bin', 'add', V(3), N(1))),
+                                                                    ('if', ('bin', 'gt', V(4), N(10)), P(V(4)), ('skip',))), ('skip',))),
+                                ('while', ('bin', 'gt', V(3), N(7)), ('set', 3, ('bin', 'sub', V(3), N(1)))),
+                                ('assert', ('bin', 'eq', V(3), N(7))), P(V(3)), ('ret', N(0))))
+    return [prog([sign, main])]
 
 
 def judge(obs):
@@ -97,8 +117,9 @@ def run(ck):
         nprog = 40 if ck.thorough else 8
         per_key = 24 if ck.thorough else 5
         cap = 90
-        progs = []
-        for i in range(nprog):
+        progs = handwritten_programs()          # deterministic shapes first (else-if chains, nested control): their mutants are always present
+        nprog += len(progs)
+        for i in range(nprog - len(progs)):
             g = progen.Gen(random.Random(ck.seed * 6151 + i), cfg)
             progs.append(g.gen_program())
         sx = [progen.to_sexp(p) for p in progs]
@@ -114,11 +135,16 @@ def run(ck):
                 continue
             for q in ms:
                 q['prog'] = i
-                q['src'] = T.to_nano(T.prog_ast(q['sexp']))
+                q['src'] = T.to_nano(T.prog_ast(q['sexp']))            # `else if` chains wherever the tree allows them
                 q['cause'] = T.root_cause(q['rule'], progs[i]['fns'][q['fn']], q['path'], q['arg'])
                 q['cls'] = T.mutant_class(q['rule'], progs[i]['fns'][q['fn']], q['path'])
                 items.append(q)
                 ck.extra['rules'][q['rule']] += 1
+                if T.in_else_if(progs[i]['fns'][q['fn']]['body'], q['path']):
+                    # the same mutant spelled `else { if .. }`: the two spellings take different paths through parser and checker
+                    q2 = dict(q, src=T.to_nano(T.prog_ast(q['sexp']), chain=False), spelling='else-block')
+                    items.append(q2)
+                    ck.extra['else_if_arm_mutants'] = ck.extra.get('else_if_arm_mutants', 0) + 1
                 if q['wt']:
                     # contradicts mut_ill_typed: the extracted mut/wt are the proved functions, so this is a broken extraction or proof
                     ck.fail('c05:model:mutant-well-typed:%s' % q['rule'], 'a mutant is accepted by the reference checker (contradicts mut_ill_typed)',
@@ -187,7 +213,7 @@ def run(ck):
     ck.extra['mutants_generated'] = len(items)
     ck.extra['mutants_run_on_tools'] = len(results)
     ck.extra['programs'] = nprog
-    ck.cov['rule'] = ('every (rule, position) of the catalogue Lang/Mutate.mut (15 rules; positions = every node of every function body) applied to '
+    ck.cov['rule'] = ('every (rule, position) of the catalogue Lang/Mutate.mut (18 rules; positions = every node of every function body) applied to '
                       'type-directed random well-typed programs (progen); each mutant is checked by the extracted reference checker (must be ill-typed), '
                       'by the real front end (probe), and -- all front-end-refused mutants, all mutants accepted for an unrecorded reason, and a sample '
                       'per recorded unchecked place -- by the three real tools.  non-trivial = a mutant that was run on the three tools; distinct = '
